@@ -25,6 +25,9 @@ TYPES = {
     "map": ({"type": "object", "additionalProperties": INT}, [{"k": 1}, {}], None, {"tier": 2}),
     "ref": ({"$ref": "#/definitions/P"}, [{"x": 1}, {"x": 2}], None, {"x": 5}),
     "nullable": ({"type": ["string", "null"]}, ["n", None], None, "nd"),
+    "unit": ({"type": "null"}, [None], None, None),
+    "any": ({}, [1, {"k": [True]}], None, {"d": 1}),
+    "tuple": ({"type": "array", "items": [INT, {"type": "string"}], "minItems": 2, "maxItems": 2}, [[1, "a"], [2, ""]], None, [7, "d"]),
     "uuid": ({"type": "string", "format": "uuid"}, ["00000000-0000-0000-0000-000000000000", "f81d4fae-7dec-11d0-a765-00a0c91e6bf6"], None, None),
 }
 STATES = ["req", "opt", "dflt"]
